@@ -47,7 +47,7 @@ def cases(tier, seed):
     for P in range(2, 9):
         for C in (1, 3, 16):
             out.append({'fam': 'A', 'kind': 'perchannel', 'n': P, 'C': C, 'tier': tier})
-    for method, name, kw in [('mps', 'mps_a', {}), ('mps', 'mps_b', {'per_channel': True}), ('sn', 'sn_a', {}), ('sn', 'sn_gumbel', {})]:
+    for method, name, kw in [('mps', 'mps_a', {}), ('mps', 'mps_b', {'per_channel': True}), ('mps', 'mps_twoin', {}), ('sn', 'sn_a', {}), ('sn', 'sn_gumbel', {})]:
         for first in _hist_alphabet(method, tier) + [None]:
             out.append({'fam': 'B', 'method': method, 'model': name, 'kw': kw, 'first': first, 'tier': tier})
     return out
@@ -292,7 +292,7 @@ def _run_B(case, seed):
                     nas.train(op == 'train+fwd')
                     nf += 1
                     torch.manual_seed(300 + nf)
-                    nas(x)
+                    F.call(nas, x)
                 elif op.startswith('coef'):
                     _set_coef(nas, method, int(op[4:]))
                 elif op.startswith('opt:'):
@@ -307,7 +307,7 @@ def _run_B(case, seed):
             prevs = {n: m.theta_alpha.detach().clone() for n, m in _samplers(nas, method)}
             torch.manual_seed(999)
             with torch.no_grad():
-                nas(x)
+                F.call(nas, x)
         except Exception as e:
             add('operation-raises', f'operation-raises/{method}', f'{type(e).__name__}: {str(e)[:200]}')
             return {'key': ('raise',) + tuple(hist), 'violations': viol, 'outcome': 'raises'}
@@ -329,7 +329,7 @@ def _run_B(case, seed):
             nas.train(not training)
             torch.manual_seed(1001)
             with torch.no_grad():
-                nas(x)
+                F.call(nas, x)
             mode2 = 'eval' if training else 'train'
             for n, m in _samplers(nas, method):
                 bad = _check_theta(m.theta_alpha, m.alpha, opts, not training, prevs2[n], is_sn)
